@@ -9,10 +9,11 @@ CONSTANTS
   ReqMode = "full"
   CfgSamplers = {"DeterministicSampler", "DynamicSampler", "EMADynamicSampler", "EMAThroughputSampler", "WindowedThroughputSampler", "TotalThroughputSampler", "RulesBasedSampler"}
   CondOps = {"=", "!=", ">", "<", ">=", "<=", "starts-with", "contains", "does-not-contain", "exists", "not-exists", "has-root-span", "matches", "in", "not-in"}
-  CondVals = {"absent", "int", "str", "numstr", "bool", "float", "nan", "null", "list", "intlist", "emptylist", "mixedlist", "badregex", "emptystr"}
+  CondVals = {"absent", "int", "str", "numstr", "bool", "float", "nan", "null", "list", "intlist", "emptylist", "mixedlist", "badregex", "emptystr", "nestedlist", "map"}
   CondTypes = {"absent", "string", "int", "float", "bool"}
   RuleKinds = {"int", "dur", "float", "list"}
   CondScopes = {"span", "trace"}
+  FieldVals = {"fv-str", "fv-emptystr", "fv-int", "fv-hugenum", "fv-float", "fv-nan", "fv-bool", "fv-nil", "fv-array", "fv-nestedarray", "fv-emptyarray", "fv-map", "fv-absent"}
   Faithful = FALSE
 INVARIANTS TypeOK Answered OnlyListed
 PROPERTY Evaluated
